@@ -1040,3 +1040,18 @@ VARIANTS += [
     dict(prop="C07", name="reveal-sum-reordered", benign=True,
          edits=[dict(file=RVF, find="        Ok(Some(share + left + right))", replace="        let opened = share + right;\n        Ok(Some(opened + left))")]),
 ]
+
+SJL = "ipa-core/src/seq_join/local.rs"
+VARIANTS += [
+    dict(prop="C15", name="poll-others-short-circuits-with-any", expect="PAIR-poll|others-polled-before-pending",
+         edits=[dict(file=SJL, find="                for f in this.active.iter_mut().skip(1) {\n                    f.check_ready(cx);\n                }", replace="                let _ready_behind_head = this.active.iter_mut().skip(1).any(|f| f.check_ready(cx));")]),
+    dict(prop="C15", name="poll-others-with-for-each", benign=True,
+         edits=[dict(file=SJL, find="                for f in this.active.iter_mut().skip(1) {\n                    f.check_ready(cx);\n                }", replace="                this.active.iter_mut().skip(1).for_each(|f| {\n                    f.check_ready(cx);\n                });")]),
+]
+
+VARIANTS += [
+    dict(prop="C20", name="identity-from-last-chain-certificate", expect="WHO-identity|end-entity-cert",
+         edits=[dict(file=NS, find="                .and_then(<[_]>::first);", replace="                .and_then(<[_]>::last);")]),
+    dict(prop="C20", name="identity-from-chain-element-zero", benign=True,
+         edits=[dict(file=NS, find="                .and_then(<[_]>::first);", replace="                .and_then(|chain| chain.first());")]),
+]
